@@ -557,6 +557,36 @@ def C15(ctx):
         ctx.violation("path-rejected", progs[m["prog"]], {"bound": m["bound"], **info}, {})
     enginecheck.run_engine(ctx, ["ExploreMC_small_b1.cfg", "ExploreMC_hash_b0.cfg", "ExploreMC_hash_b1.cfg", "ExploreMC_hash_b2.cfg"])
     dpor_space(ctx, [0, 1, 2, 3, 16, None], ("C15",), quick_sample=60)
+    # straight-line programs with yield_now (found by TLC on Dpor.tla with the "yield" block kind): result sets only
+    ys = [dsl.normalize(q) for q in [
+        families.P("yield-then-store", [dsl.spawn(2), dsl.spawn(3), dsl.join(2), dsl.join(3)], [dsl.ld("x", "sc"), dsl.ld("y", "sc")],
+                   [dsl.I("yield"), dsl.st("x", 32, "sc")]),
+        families.P("yield-then-store-nojoin", [dsl.spawn(2), dsl.spawn(3)], [dsl.ld("x", "sc"), dsl.ld("y", "sc")],
+                   [dsl.I("yield"), dsl.st("x", 32, "sc")]),
+        families.P("yield-then-load", [dsl.spawn(2), dsl.spawn(3), dsl.join(2), dsl.join(3)], [dsl.st("x", 21, "sc"), dsl.ld("y", "sc")],
+                   [dsl.I("yield"), dsl.ld("x", "sc")]),
+        families.P("store-then-yield", [dsl.spawn(2), dsl.spawn(3), dsl.join(2), dsl.join(3)], [dsl.ld("x", "sc"), dsl.ld("y", "sc")],
+                   [dsl.st("x", 32, "sc"), dsl.I("yield")]),
+    ]]
+    yb = [0, 1, 2, 3, 4, None]
+    YR = loomrun.run_items(os.path.join(ctx.work, "yield"), [{"prog": q, "cfg": ({"preemption_bound": b} if b is not None else {})}
+                                                             for q in ys for b in yb], jobs=ctx.jobs, tag="yield")
+    for qi, q in enumerate(ys):
+        rs = YR[qi * len(yb):(qi + 1) * len(yb)]
+        if any(r["end"] != "ok" for r in rs):
+            ctx.violation("bounded-run-failed", q, {"ends": [r["end"] for r in rs]}, {})
+            continue
+        ku = loomrun.loom_keys(rs[-1])
+        prev = None
+        for b, r in zip(yb[:-1], rs[:-1]):
+            k = loomrun.loom_keys(r)
+            for w in sorted(k - ku):
+                ctx.violation("bounded-not-in-unbounded", q, {"bound": b, "outcome": w}, {})
+            if prev is not None:
+                for w in sorted(prev[1] - k):
+                    ctx.violation("not-monotone", q, {"bound_small": prev[0], "bound_large": b, "outcome": w}, {})
+            prev = (b, k)
+    ctx.cov["programs"] += len(ys)
     ctx.cov["programs"] += len(progs)
     ctx.cov["evaluations"] += len(items)
     ctx.cov["distinct_nontrivial"] += nontriv
